@@ -4,4 +4,5 @@ CONSTANTS
   Procs = {1,2,3,4}
   Fixed = FALSE
   EnableFirst = TRUE
+  Mon = TRUE
 INVARIANTS LinStrict LinWeak QuiescentAgrees AtMostOnceI NoInventionI NoLostWakeupQ ParkedRegistered WaitersSane
